@@ -112,6 +112,14 @@ def run_case(ctx, case):
     nontrivial = bool(want)
     try:
         lines = linesplit(arg, columns)
+        if case.get("again", True):
+            # asking again must give the same answer (nothing may be carried over)
+            first = [obs.cells(l) for l in lines]
+            lines = linesplit(arg, columns)
+            if [obs.cells(l) for l in lines] != first:
+                ctx.judge(False, case, mech="C16:second-call-differs", expected=[obs.show(g) for g in first],
+                          got=[obs.show(obs.cells(l)) for l in lines])
+                return
         got = [obs.cells(l) for l in lines]
     except obs.ObservationFailed as ex:
         ctx.judge(False, case, mech="C16:incoherent-result", got=str(ex))
@@ -175,6 +183,7 @@ def run(ctx):
     ctx.notes["max_length_enumerated"] = N
     rng = ctx.rng
     for _ in range(ctx.share(3000 if ctx.quick else 150000)):
-        text = "".join(rng.choice("abcdefg    \t\n") for _ in range(rng.randint(0, 40)))
+        alpha = "abcdefg    \t\n" if rng.random() < .6 else "ab一Ｅ́é\x01  \t\n"
+        text = "".join(rng.choice(alpha) for _ in range(rng.randint(0, 40)))
         run_case(ctx, {"text": text, "pattern": rng.choice(PATTERNS), "columns": rng.randint(1, 12)})
         ctx.count("random_texts")
